@@ -436,8 +436,16 @@ fn judge_curve(case: &Case, l: &mut Local) {
                 if (a < -1e-6 * sc && b > 1e-6 * sc) || (a > 1e-6 * sc && b < -1e-6 * sc) {
                     robust += 1;
                 }
+                // an edge with both ends outside that passes through the circle crosses it twice
+                if a > 1e-6 * sc && b > 1e-6 * sc {
+                    let e = v[i + 1] - v[i];
+                    let t = (c.center - v[i]).dot(&e) / e.norm_squared();
+                    if t > 1e-6 && t < 1.0 - 1e-6 && (v[i] + e * t - c.center).norm() < c.r() - 1e-6 * sc {
+                        robust += 2;
+                    }
+                }
             }
-            l.check("curve-circle: every edge leaving or entering the circle contributes a point", "", got.len() >= robust, mk, || format!("scale {:e}: {} points for {} in/out edges", sc, got.len(), robust));
+            l.check("curve-circle: every edge leaving, entering or passing through the circle contributes its points", "", got.len() >= robust, mk, || format!("scale {:e}: {} points for {} in/out edges", sc, got.len(), robust));
         }
     }
 }
